@@ -19,7 +19,7 @@ from __future__ import annotations
 import ast
 
 from ..cfg import covered
-from ..core import stmt_text
+from ..core import stmt_text, own_nodes
 from ..effects import DYN, ELEM
 from ..report import Inst
 from .r03_index import dclass
@@ -140,9 +140,78 @@ def _detached_params(ctx, f, callers):
     return result or set()
 
 
+DELEGATES = [
+    # node-side spellings of the attacker operations: (function, parameter the request is about, method delegated to)
+    ('AttackGraphNode.compromise', 'attacker', 'compromise'),
+    ('AttackGraphNode.undo_compromise', 'attacker', 'undo_compromise'),
+]
+
+
+def _delegations(ctx) -> list[Inst]:
+    """DELEGATE  node.compromise(a) / node.undo_compromise(a) ARE a.compromise(node) / a.undo_compromise(node): every
+    normally returning path performs the delegation, or skips it under a test that involves the attacker asked about
+    (what another attacker did to the node does not answer this attacker's request)."""
+    out = []
+    for (fname, param, meth) in DELEGATES:
+        if not ctx.prog.has_func(fname):
+            continue
+        f = ctx.prog.func(fname)
+        if param not in f.params:
+            continue
+        cfg = ctx.cfg(f)
+        rel = f.module.relpath
+        construct = f'DELEGATE: {fname} hands every request to {param}.{meth}'
+        calls = [cfg.owner(n) for n in own_nodes(f.node) if isinstance(n, ast.Call) and isinstance(n.func, ast.Attribute)
+                 and n.func.attr == meth and isinstance(n.func.value, ast.Name) and n.func.value.id == param]
+        calls = [c for c in calls if c is not None]
+        if not calls:
+            out.append(Inst(RULE, f.short, construct, 'unproven', msg='delegation not found (implemented here?)', file=rel,
+                            line=f.node.lineno, props=('C11', 'C09'), nontrivial=False))
+            continue
+        reach = cfg.reachable_from(cfg.entry, avoiding={c.idx for c in calls})
+        if cfg.exit.idx not in reach:
+            out.append(Inst(RULE, f.short, construct, 'ok', file=rel, line=f.node.lineno, props=('C11', 'C09')))
+            continue
+        # which tests let a path slip past the delegation?
+        bad = None
+        for g in cfg.nodes:
+            if g.kind == 'if' and g.idx in reach:
+                for t, lab in g.succ:
+                    r2 = cfg.reachable_from(t, avoiding={c.idx for c in calls})
+                    if (t is cfg.exit or cfg.exit.idx in r2) and not any(
+                            isinstance(x, ast.Name) and x.id == param for x in ast.walk(g.ast.test)):
+                        others = [t2 for t2, _l in g.succ if t2 is not t]
+                        cidx = {c.idx for c in calls}
+                        if not any(o.idx in cidx or (o is not cfg.exit and cfg.exit.idx not in cfg.reachable_from(o, avoiding=cidx))
+                                   for o in others):
+                            continue
+                        # undo only: "nobody has compromised the node" implies "this attacker has not": skipping then is
+                        # exactly what the delegate would do
+                        tst = g.ast.test
+                        neg = isinstance(tst, ast.UnaryOp) and isinstance(tst.op, ast.Not)
+                        core = tst.operand if neg else tst
+                        nobody = (isinstance(core, ast.Call) and isinstance(core.func, ast.Attribute) and core.func.attr == 'is_compromised'
+                                  and not core.args) or (isinstance(core, ast.Attribute) and core.attr == 'compromised_by')
+                        if meth == 'undo_compromise' and nobody and ((neg and lab == 'T') or (not neg and lab == 'F')):
+                            continue
+                        bad = g
+        if bad is not None:
+            out.append(Inst(
+                RULE, f.short, construct, 'violation',
+                msg=(f"'if {stmt_text(bad.ast.test, 60)}' lets {fname} return without calling {param}.{meth}(self), and the "
+                     f"test does not involve '{param}': whether THIS attacker's request is carried out is decided by "
+                     f"what any attacker did to the node - with two attackers the node side and the attacker side "
+                     f"of the relation stop agreeing with what was asked"),
+                file=rel, line=bad.ast.lineno, props=('C11', 'C09')))
+        else:
+            out.append(Inst(RULE, f.short, construct, 'unproven', msg='a path returns without the delegation', file=rel,
+                            line=f.node.lineno, props=('C11', 'C09'), nontrivial=False))
+    return out
+
+
 def run(ctx) -> list[Inst]:
     prog, an = ctx.prog, ctx.an
-    insts: list[Inst] = []
+    insts: list[Inst] = _delegations(ctx)
     callers = _callers(ctx)
     for f in prog.all_funcs():
         facts = an.of(f)
